@@ -891,9 +891,9 @@ func genC11(g *h.G) {
 	}
 	g.Emit("prim.aes256ctr", h.Hex(g.Bytes(32)), strings.Repeat("ff", 16), "0", h.Hex(g.Bytes(48)))
 
-	nStatic := g.Scale(800, 20000)
-	nSession := g.Scale(300, 10000)
-	nFault := g.Scale(300, 10000)
+	nStatic := g.Scale(800, 12000)
+	nSession := g.Scale(300, 8000)
+	nFault := g.Scale(300, 8000)
 	faultI := 0
 	rounds := nStatic
 	for i := 0; i < rounds; i++ {
